@@ -14,10 +14,10 @@ from ..sim.appsim import AppSim, exc_site
 
 PROPERTY_ID = 'C19'
 RULE = ('Legacy NDNApp + scripted producer on the virtual loop. Object: unsegmented, or 1..7 segments under /obj[/v=N]; FinalBlockId on '
-        'the last segment only or on all; discovery (prefix Interest) answered by segment k for any k or by the unsegmented Data; '
+        'the last segment only or on all; optionally one segment (or the unsegmented object) with present-but-empty Content; discovery (prefix Interest) answered by segment k for any k or by the unsegmented Data; '
         'retry_times 1..4 (and 0 without losses); a loss matrix (discovery/segment x attempt) biased to "r-1 losses then success" and "exactly r losses"; '
-        'optionally a Nack or a validator rejection on one segment; without losses optionally a second concurrent fetch of the same object '
-        '(started 0 / 1 / 40 ms later) that must yield the same. Oracle: yielded list == contents 0..last each once in order (or the '
+        'optionally a Nack or a validator rejection on one segment; optionally (when every row loses fewer than r Interests) a second concurrent fetch of the '
+        'same object started 0 / 1 / 40 / 60 ms later that must yield the same. Oracle: yielded list == contents 0..last each once in order (or the '
         'single content) when every row has fewer than r consecutive losses; otherwise InterestTimeout after exactly the preceding '
         'segments were yielded and exactly r Interests were seen for the exhausted one; Nack / ValidationFailure propagate at that '
         'segment; the producer never sees an Interest beyond the final segment. The sub-space N<=4, r<=3 with every loss matrix of '
@@ -37,7 +37,12 @@ def seg(n):
     return T.enc_tlv(50, T.enc_nni(n))
 
 
+EMPTY_SEG = [None]       # index of a segment whose Content is present but empty (set per case)
+
+
 def content_of(i):
+    if i == EMPTY_SEG[0]:
+        return b''
     return b'segment-%d-' % i + bytes([i]) * (i % 5)
 
 
@@ -55,6 +60,8 @@ def run_case(case):
 
 def _run(sim, case, r):
     N = case['n']                       # 0 => unsegmented object
+    EMPTY_SEG[0] = case.get('empty_seg')
+    whole = b'' if case.get('empty_seg') == 0 else b'whole-object'
     rt_arg = case['retry']
     rt = max(1, rt_arg)                  # retry_times=0: 'no retry' - every Interest is still sent once (see ASSUMPTIONS)
     version = [T.enc_tlv(54, T.enc_nni(case['version']))] if case['version'] is not None else []
@@ -115,7 +122,7 @@ def _run(sim, case, r):
             return
         if row == 'd':
             if N == 0:
-                respond(net.data_wire(base, content=b'whole-object', freshness=1000))
+                respond(net.data_wire(base, content=whole, freshness=1000))
             else:
                 respond(data_for(case['disc_k'] % N))
         else:
@@ -131,9 +138,10 @@ def _run(sim, case, r):
 
     out, out2 = [], []
     box, box2 = {}, {}
-    # a second fetch of the same object running concurrently in the same application (only without losses / faults, where the
-    # expected result of each fetch is simply the whole object)
-    twin = case.get('twin') if not loss and not case['fault'] else None
+    # a second fetch of the same object running concurrently in the same application
+    # With losses the twin runs only when every row loses fewer than retry_times Interests in total: then neither fetch can lose
+    # retry_times attempts of its own on any segment, so both must deliver the whole object (attempt counts are not compared)
+    twin = case.get('twin') if not case['fault'] and all(sum(map(bool, v)) < rt for v in loss.values()) else None
 
     async def consume(out, box, delay=0):
         try:
@@ -182,7 +190,7 @@ def _run(sim, case, r):
     else:
         want_attempts['d'] = n_attempts('d')
         if N == 0:
-            want_out = [b'whole-object']
+            want_out = [whole]
         else:
             k = case['disc_k'] % N
             if fault and fault[0] == 'reject' and fault[1] == k:
@@ -270,7 +278,8 @@ def _case(draw):
             'other_final': draw(st.sampled_from([None, None, None, 'seq', 'off', 'ver', 'gen'])),
             'ask_segment': draw(st.one_of(st.none(), st.none(), st.none(), st.integers(0, 7))),
             'version': draw(st.one_of(st.none(), st.sampled_from([0, 1, 255, 256, 2 ** 32]))), 'loss': loss, 'fault': fault,
-            'twin': draw(st.sampled_from([None, None, 0, 1, 40]))}
+            'twin': draw(st.sampled_from([None, None, 0, 1, 40, 60])),
+            'empty_seg': draw(st.sampled_from([None, None, None, 0, 1, 2, 6]))}
 
 
 def _enum(tier):
